@@ -230,8 +230,8 @@ class HostObservation(AbstractObservation, discriminator="host"):
             if self.nics:
                 obs["NICS"] = {i + 1: nic.observe(state) for i, nic in enumerate(self.nics)}
             if self.include_num_access:
-                obs["num_file_creations"] = node_state["file_system"]["num_file_creations"]
-                obs["num_file_deletions"] = node_state["file_system"]["num_file_deletions"]
+                obs["num_file_creations"] = min(node_state["file_system"]["num_file_creations"], 3)
+                obs["num_file_deletions"] = min(node_state["file_system"]["num_file_deletions"], 3)
             if self.include_users:
                 sess = node_state["services"]["user-session-manager"]
                 obs["users"] = {
